@@ -345,8 +345,11 @@ func runC15(c *core.Ctx) {
 	// ---------------------------------------------------------------- linkbudget
 	c.Rule("C15.linkbudget", "every call of LinkSystem.Load / Fill in package traversal is reachable from the entry of the function it belongs to (helpers expanded into their callers) only by passing a decrement of Budget.LinkBudget or the edge on which no budget is configured", 3)
 	for _, fn := range tr.fns {
+		if tr.absorbed(fn) {
+			continue // a step of another function (the load and its budget test may sit in different steps): decided there, with the steps expanded
+		}
 		n := 0
-		for _, ci := range core.Calls(fn) {
+		for _, ci := range core.CallsR(fn) {
 			if !isBlockLoad(ci) {
 				continue
 			}
